@@ -142,7 +142,8 @@ func (fr *frame) bufferModel(x *ssa.Call, callee *ssa.Function, args []Value) (V
 		return Ptr{n}, true
 	case "encoding/binary.Write":
 		w, ok := args[0].(Iface)
-		if !ok || w.T == nil || !isBytesBuffer(w.T) {
+		hw, isHash := asHash(args[0])
+		if !isHash && (!ok || w.T == nil || !isBytesBuffer(w.T)) {
 			return nil, false
 		}
 		ord, ok := args[1].(Iface)
@@ -187,6 +188,11 @@ func (fr *frame) bufferModel(x *ssa.Call, callee *ssa.Function, args []Value) (V
 			cells = fr.cellsOf(v, "binary.Write")
 		default:
 			return nil, false
+		}
+		if isHash {
+			fr.hashKnown(hw)
+			fr.bufAppend(hw.N, cells)
+			return nilErr, true
 		}
 		fr.bufAppend(fr.bufNode(w.V), cells)
 		return nilErr, true
